@@ -7,7 +7,7 @@ from oracle_util import *  # noqa
 from protocol import from_real, KEY_IDX
 
 ID = "C13"
-LEAN_MODULE = ["SCoda.Props.C13", "SCoda.Props.C15", "SCoda.Props.C12", "SCoda.Props.C13b"]
+LEAN_MODULE = ["SCoda.Props.C13", "SCoda.Props.C15", "SCoda.Props.C12", "SCoda.Props.C13b", "SCoda.Props.StaticTie"]
 CLAUSES = [
     ("every created event sits at roundHalfEven(prefix sum of the deltas * 24 / file_ppq): error <= 1/2 tick, exact on integers, and the running file tick is "
      "the plain sum of deltas — no rounding is fed back (no accumulation)",
@@ -39,6 +39,13 @@ CLAUSES = [
       "SCoda.C13b.routing_orphans", "SCoda.C13b.routing_first_group_statement_false", "SCoda.C13b.notesClosed_of_goodTrack"]),
     ("every outcome of convert: IndexError exactly for an empty group, ValueError exactly for a target outside the groups when all groups are non-empty, success otherwise — "
      "for any tracks and any meta selection", ["SCoda.C13b.empty_group_error", "SCoda.C13b.bad_target_exact", "SCoda.C13b.convert_succeeds"]),
+    ("TIE BY TRANSLATION: MidiFile.convert (per-track accumulation of the scaled position as an exact rational — the idealisation of the IEEE doubles recorded in "
+     "DESIGN 5 —, round, routing to the first group, meta messages to the meta sequence, per-track normalise, group merge, default 4/4, the two error exits), "
+     "MidiMessage.parse_mido_message / MidiTrack.parse_mido_track, MidiFile.__init__/open/parse_mido and Sequence.sequences_load are re-translated statement by "
+     "statement on every run (Gen/StaticFns.lean) and proved equal to the models `convert`, `parseMido`, `parseTrack` — for ALL inputs, no hypothesis",
+     ["SCoda.StaticTie.convert_eq", "SCoda.StaticTie.parseMidoMessage_eq", "SCoda.StaticTie.parseMidoTrack_eq", "SCoda.StaticTie.midiFileInit_eq",
+      "SCoda.StaticTie.parseMido_eq", "SCoda.StaticTie.midiFileOpen_eq", "SCoda.StaticTie.sequencesLoad_eq", "SCoda.StaticTie.sequencesLoad_path_eq",
+      "SCoda.StaticTie.translated_covered"]),
     ("parser (Model/MidiParse.lean, tied by the parseMido correspondence): a note-on with velocity 0 is a note-off and loads as one; each of the 15 key names the saver "
      "writes is looked up to its own key in the regenerated KeyKeyMapping (decided over the generated tables)",
      ["SCoda.C13b.parse_note_on_zero", "SCoda.C13b.note_on_zero_loads_as_off", "SCoda.C13b.parse_note_on_pos", "SCoda.C13b.key_table_round_trip",
